@@ -40,8 +40,10 @@ def units(tier):
 def setup(ctx):
     import gemdat.rdf as rdf
 
-    _mon.attach(rdf, 'radial_distribution', label='rdf.radial_distribution')
-    _mon.attach(rdf, 'radial_distribution_between_species', label='rdf.radial_distribution_between_species')
+    from .. import retain as _rt
+
+    _mon.attach(rdf, 'radial_distribution', label='rdf.radial_distribution', retain=_rt.rdf_dict, scribble=True)
+    _mon.attach(rdf, 'radial_distribution_between_species', label='rdf.radial_distribution_between_species', retain=_rt.rdf_one, scribble=True)
     _mon.attach(rdf, '_uniqify_labels', optional=True, label='rdf._uniqify_labels')
     # silence the progress bar
     try:
@@ -93,7 +95,8 @@ def run_unit(unit, rng, ctx):
     m = sys_.matrix
     names = sys_.species_names
     T, N, _ = sys_.coords.shape
-    max_dist = float(rng.uniform(2.0, 6.0))
+    # half of the cut-offs come from a small set, so that the same (cut-off, resolution) recurs within a process
+    max_dist = float(rng.uniform(2.0, 6.0)) if rng.integers(2) else float(rng.choice([2.5, 4.0, 5.0]))
     res = float(rng.choice([0.1, 0.25, 0.5, 0.02, 0.015]))  # the last two give more than 255 bins
     ctx.count('fine_resolution_cases', res < 0.05)
     what = f'{sys_.kind}{"/rot" if sys_.rotated else ""} labels={sys_.labels} species={names} max_dist={max_dist:.3f} res={res}'
